@@ -1,7 +1,1595 @@
-//! C30 — not implemented yet.
-use vmon::report::Args;
+//! C30 — the I/O scheduler returns exactly the requested bytes and always completes.
+//!
+//! Three legs over the real `lance_io::scheduler::{ScanScheduler, FileScheduler}` (and
+//! `lance_file::LanceEncodingsIo` on top of it), all reading an `object_store::memory::InMemory`
+//! file with known random bytes through `gate::GateStore`:
+//!
+//!  1. *boundary*: random range lists (empty / overlapping / contained / adjacent / near / far /
+//!     duplicated / unsorted), random block size, io parallelism, buffer budget, priorities; oracle:
+//!     exactly one buffer per requested range, in request order, equal to the file slice. A failing
+//!     list is minimised against the real scheduler and classified; the class is the signature.
+//!  2. *progress*: every underlying read parks in the store; a seeded controller interleaves
+//!     submit / release-one-read (any order, with transient or permanent failures) / consumer stalls /
+//!     dropping futures / dropping the scheduler. Oracle (bounded progress): at a quiescent point
+//!     (runtime drained, measured in controller steps — no wall clock) with no parked read, nothing
+//!     left to submit and every outstanding future polled, every submitted request has resolved;
+//!     resolved data equals the slices; errors only where a read failed permanently or the scheduler
+//!     was dropped. Hook H1 (queue-state callback) gives the budget-conservation monitor.
+//!  3. *stress*: multi-thread runtime, several submitters, jittered reads, random consume delays,
+//!     small `io_buffer_size`; same data oracle, H1 monitor; a wall-clock watchdog is *inconclusive*.
+//!
+//! `LANCE_MAX_IOP_SIZE` and `LANCE_PROCESS_IO_THREADS_LIMIT` are read once per process by lance-io,
+//! so the check re-executes itself as worker processes with different values and merges the results.
 
-pub fn run(_args: &Args) -> i32 {
-    eprintln!("HARNESS-ERROR C30 not implemented");
-    2
+use bytes::Bytes;
+use futures::future::BoxFuture;
+use futures::stream::FuturesUnordered;
+use futures::{FutureExt, StreamExt};
+use lance_encoding::EncodingsIo;
+use lance_file::LanceEncodingsIo;
+use lance_io::object_store::ObjectStore;
+use lance_io::scheduler::{FileScheduler, ScanScheduler, SchedulerConfig};
+use lance_io::utils::CachedFileSize;
+use object_store::path::Path;
+use object_store::ObjectStore as _;
+use serde_json::{json, Value};
+use std::collections::BTreeSet;
+use std::ops::Range;
+use std::panic::AssertUnwindSafe;
+use std::sync::{Arc, Mutex};
+use std::time::Duration;
+use vmon::prng::{fnv, Rng};
+use vmon::report::{Args, Report, Tier};
+
+use crate::gate::{GateStore, Mode, Verdict};
+use crate::qmon::{self, Monitor};
+use crate::sink::{merge_json, Collector};
+
+const RULE: &str = "Worker processes (one per LANCE_MAX_IOP_SIZE / process iops limit) run seeded cases: \
+boundary cases = random range lists over a random file/block size/parallelism/budget, distinct by the \
+list's shape (per-pair relation empty/dup/contained/overlap/adjacent/near/far/unsorted + per-range size \
+class), non-trivial iff >=2 ranges or a split or an empty range; progress cases = seeded controller \
+schedules over parked reads, distinct by (release permutation, action sequence), non-trivial iff >=2 \
+reads were parked at once and released out of arrival order, or the queue showed back-pressure; stress \
+cases = multi-thread runs, non-trivial iff back-pressure or >1 submitter.";
+
+type Req = Vec<Range<u64>>;
+
+// -------------------------------------------------------------------------------------------
+// entry points
+// -------------------------------------------------------------------------------------------
+
+#[derive(Clone, Copy, Debug)]
+struct WorkerCfg {
+    max_iop: u64,
+    /// LANCE_PROCESS_IO_THREADS_LIMIT (0 = unlimited)
+    proc_limit: i32,
+    threads: usize,
 }
+
+fn worker_cfgs(tier: Tier) -> Vec<WorkerCfg> {
+    let mut v = vec![
+        WorkerCfg { max_iop: 1000, proc_limit: 128, threads: 4 },
+        WorkerCfg { max_iop: 64, proc_limit: 0, threads: 4 },
+        WorkerCfg { max_iop: 4099, proc_limit: 128, threads: 3 },
+        WorkerCfg { max_iop: 65536, proc_limit: 3, threads: 1 },
+    ];
+    if tier == Tier::Thorough {
+        v.push(WorkerCfg { max_iop: 1, proc_limit: 0, threads: 2 });
+        v.push(WorkerCfg { max_iop: 16 * 1024 * 1024, proc_limit: 128, threads: 2 });
+    }
+    v
+}
+
+pub fn run(args: &Args) -> i32 {
+    if args.extra.contains_key("worker") {
+        return worker_main(args);
+    }
+    if args.extra.contains_key("selftest") {
+        return selftest(args);
+    }
+    let report = Report::new(args, "exploration", RULE, (50, 900)).with_min_nontrivial(50);
+    report.assume("object_store::memory::InMemory serves get_opts ranges faithfully");
+    report.assume("bounded progress is judged at quiescence of a current-thread runtime (no wall clock); the multi-thread stress leg can only report a hang as inconclusive");
+    let cfgs = worker_cfgs(args.tier);
+    let exe = match std::env::current_exe() {
+        Ok(e) => e,
+        Err(e) => {
+            report.harness_error(&format!("current_exe: {e}"));
+            return report.finish();
+        }
+    };
+    if let Some(path) = &args.replay {
+        return replay(args, &report, path);
+    }
+    let budget = report.budget_s();
+    let mut children = vec![];
+    for (k, c) in cfgs.iter().enumerate() {
+        let out = format!("/tmp/e_io-c30-{}-{}.json", std::process::id(), k);
+        let mut cmd = std::process::Command::new(&exe);
+        cmd.arg("C30")
+            .arg("--tier")
+            .arg(args.tier.name())
+            .arg("--seed")
+            .arg((args.seed as i64).to_string())
+            .arg("--budget")
+            .arg(budget.to_string())
+            .arg("--worker")
+            .arg(k.to_string())
+            .arg("--out")
+            .arg(&out)
+            .env("LANCE_MAX_IOP_SIZE", c.max_iop.to_string())
+            .env("LANCE_PROCESS_IO_THREADS_LIMIT", c.proc_limit.to_string())
+            .env_remove("LANCE_IO_THREADS");
+        match cmd.spawn() {
+            Ok(ch) => children.push((k, out, ch)),
+            Err(e) => report.harness_error(&format!("spawn worker {k}: {e}")),
+        }
+    }
+    let mut worker_summaries = vec![];
+    for (k, out, mut ch) in children {
+        let status = ch.wait();
+        let txt = std::fs::read_to_string(&out);
+        let _ = std::fs::remove_file(&out);
+        match (status, txt) {
+            (Ok(st), Ok(txt)) if st.success() => match serde_json::from_str::<Value>(&txt) {
+                Ok(v) => {
+                    worker_summaries.push(json!({
+                        "worker": k, "max_iop_size": cfgs[k].max_iop, "process_iops_limit": cfgs[k].proc_limit,
+                        "threads": cfgs[k].threads, "cases": v["evaluations"], "distinct": v["sigs"].as_array().map(|a| a.len()),
+                    }));
+                    merge_json(&report, &v);
+                }
+                Err(e) => report.harness_error(&format!("worker {k}: bad json: {e}")),
+            },
+            (st, _) => report.harness_error(&format!("worker {k} failed: {st:?}")),
+        }
+    }
+    report.set("workers", json!(worker_summaries));
+    report.finish()
+}
+
+fn worker_main(args: &Args) -> i32 {
+    let k: usize = args.extra["worker"].parse().unwrap_or(0);
+    let cfgs = worker_cfgs(args.tier);
+    let cfg = cfgs[k.min(cfgs.len() - 1)];
+    let out = args.extra.get("out").cloned().unwrap_or_default();
+    let max_iop: u64 = std::env::var("LANCE_MAX_IOP_SIZE")
+        .ok()
+        .and_then(|s| s.parse().ok())
+        .unwrap_or(16 * 1024 * 1024);
+    std::panic::set_hook(Box::new(|_| {}));
+    let budget = args.budget_s.unwrap_or(50) as f64;
+    let col = Collector::new(budget);
+    let env = Env {
+        seed: args.seed ^ ((k as u64 + 1) << 56),
+        max_iop,
+        proc_limit: cfg.proc_limit,
+        worker: k,
+        selftest: false,
+    };
+    let max_cases: u64 = args.tier.pick(400_000, 40_000_000);
+    if let Some(c) = args.extra.get("only-case").and_then(|c| c.parse::<u64>().ok()) {
+        run_case(&env, &col, c, true);
+        let v = col.to_json();
+        return if std::fs::write(&out, serde_json::to_string(&v).unwrap()).is_ok() { 0 } else { 2 };
+    }
+    std::thread::scope(|s| {
+        for t in 0..cfg.threads {
+            let col = &col;
+            let env = env.clone();
+            s.spawn(move || {
+                let mut i = t as u64;
+                while col.time_left() && i < max_cases {
+                    run_case(&env, col, i, cfg.threads == 1 || t == 0);
+                    i += cfg.threads as u64;
+                }
+            });
+        }
+    });
+    let v = col.to_json();
+    if std::fs::write(&out, serde_json::to_string(&v).unwrap()).is_err() {
+        return 2;
+    }
+    0
+}
+
+#[derive(Clone, Debug)]
+struct Env {
+    seed: u64,
+    max_iop: u64,
+    proc_limit: i32,
+    worker: usize,
+    selftest: bool,
+}
+
+fn rt_current() -> tokio::runtime::Runtime {
+    tokio::runtime::Builder::new_current_thread()
+        .enable_all()
+        .build()
+        .expect("runtime")
+}
+
+fn run_case(env: &Env, col: &Collector, i: u64, may_stress: bool) {
+    let mut rng = Rng::for_case(env.seed, i);
+    let kind = rng.below(100);
+    if kind < 62 {
+        let rt = rt_current();
+        rt.block_on(boundary_case(env, col, i, &mut rng));
+    } else if kind < 97 || !may_stress {
+        let rt = rt_current();
+        rt.block_on(progress_case(env, col, i, &mut rng));
+    } else {
+        stress_case(env, col, i, &mut rng);
+    }
+}
+
+// -------------------------------------------------------------------------------------------
+// file + scheduler set-up
+// -------------------------------------------------------------------------------------------
+
+struct Setup {
+    gate: Arc<GateStore>,
+    data: Bytes,
+    path: Path,
+    block_size: u64,
+    io_par: usize,
+    io_buffer: u64,
+    known_size: bool,
+    store: Arc<ObjectStore>,
+}
+
+impl Setup {
+    fn describe(&self, env: &Env) -> Value {
+        json!({"file_len": self.data.len(), "block_size": self.block_size, "io_parallelism": self.io_par,
+               "io_buffer_size": self.io_buffer, "known_size": self.known_size, "max_iop_size": env.max_iop,
+               "process_iops_limit": env.proc_limit})
+    }
+}
+
+async fn make_setup(env: &Env, rng: &mut Rng) -> Setup {
+    let m = env.max_iop;
+    let file_len: u64 = match rng.below(10) {
+        0 => rng.range(1, 64) as u64,
+        1..=3 => rng.range(65, 5000) as u64,
+        4..=7 => rng.range(5000, 60_000) as u64,
+        _ => (rng.range(2, 9) as u64 * m.min(40_000)).max(1000) + rng.below(977),
+    };
+    let data = Bytes::from(rng.bytes(file_len as usize));
+    let block_size: u64 = *rng.pick(&[1u64, 7, 64, 500, 1000, 4096, 65536, 1 << 20]);
+    let io_par = *rng.pick(&[1usize, 1, 2, 3, 8, 16]);
+    let io_buffer: u64 = *rng.pick(&[1u64, 10, 100, 1000, 20_000, 1 << 20, 256 << 20]);
+    let known_size = rng.chance(2, 3);
+    let gate = GateStore::new();
+    let path = Path::from("dir/file.bin");
+    gate.inner
+        .put(&path, data.clone().into())
+        .await
+        .expect("put");
+    let store = Arc::new(ObjectStore::new(
+        gate.clone(),
+        url::Url::parse("memory:///").unwrap(),
+        Some(block_size as usize),
+        None,
+        false,
+        true,
+        io_par,
+        3,
+        None,
+    ));
+    Setup {
+        gate,
+        data,
+        path,
+        block_size,
+        io_par,
+        io_buffer,
+        known_size,
+        store,
+    }
+}
+
+async fn open(su: &Setup, base_priority: u64) -> lance_core::Result<(Arc<ScanScheduler>, FileScheduler)> {
+    let sched = ScanScheduler::new(
+        su.store.clone(),
+        SchedulerConfig {
+            io_buffer_size_bytes: su.io_buffer,
+        },
+    );
+    let size = if su.known_size {
+        CachedFileSize::new(su.data.len() as u64)
+    } else {
+        CachedFileSize::unknown()
+    };
+    let fs = sched
+        .open_file_with_priority(&su.path, base_priority, &size)
+        .await?;
+    Ok((sched, fs))
+}
+
+// -------------------------------------------------------------------------------------------
+// range list generation and shape analysis
+// -------------------------------------------------------------------------------------------
+
+#[derive(Clone, Copy, Debug, PartialEq, Eq)]
+enum Profile {
+    SortedDisjoint,
+    Adjacent,
+    Overlapping,
+    Mixed,
+    Unsorted,
+    WithEmpties,
+    AllEmpty,
+}
+
+fn gen_len(rng: &mut Rng, file_len: u64, m: u64, allow_empty: bool) -> u64 {
+    let l = match rng.below(12) {
+        0 if allow_empty => 0,
+        0 | 1 => 1,
+        2..=5 => rng.range(1, 16) as u64,
+        6..=8 => rng.range(1, m.min(file_len).max(1) as i64) as u64,
+        9 => m,
+        10 => m + rng.range(1, 3 * m.min(20_000) as i64 + 1) as u64,
+        _ => rng.range(1, file_len.max(1) as i64) as u64,
+    };
+    l.min(file_len)
+}
+
+fn gen_ranges(rng: &mut Rng, file_len: u64, block: u64, m: u64, profile: Profile) -> Req {
+    let n = match rng.below(100) {
+        0 => 0,
+        1..=14 => 1,
+        15..=64 => rng.urange(2, 4),
+        65..=94 => rng.urange(5, 12),
+        _ => rng.urange(13, 40),
+    };
+    let mut out: Req = vec![];
+    let mut pos: u64 = if rng.chance(1, 4) { 0 } else { rng.below(file_len + 1) };
+    for i in 0..n {
+        let allow_empty = matches!(profile, Profile::WithEmpties | Profile::Mixed | Profile::AllEmpty);
+        let mut len = gen_len(rng, file_len, m, allow_empty);
+        if profile == Profile::AllEmpty || (profile == Profile::WithEmpties && rng.chance(1, 3)) {
+            len = 0;
+        }
+        // relation to the previous range
+        let prev = out.last().cloned();
+        let rel = match profile {
+            Profile::SortedDisjoint => *rng.pick(&["near", "far", "far"]),
+            Profile::Adjacent => *rng.pick(&["adjacent", "adjacent", "near"]),
+            Profile::Overlapping => *rng.pick(&["overlap", "contained", "dup", "near", "adjacent"]),
+            Profile::Unsorted => *rng.pick(&["before", "far", "near", "overlap", "any"]),
+            _ => *rng.pick(&["near", "far", "adjacent", "overlap", "contained", "dup", "any"]),
+        };
+        let start = match (&prev, rel) {
+            (None, _) => pos,
+            (Some(p), "adjacent") => p.end,
+            (Some(p), "near") => p.end + rng.below(block.min(5000) + 1),
+            (Some(p), "far") => p.end + block + 1 + rng.below(20_000),
+            (Some(p), "overlap") => {
+                if p.end > p.start {
+                    p.start + rng.below(p.end - p.start)
+                } else {
+                    p.start
+                }
+            }
+            (Some(p), "contained") => {
+                if p.end > p.start {
+                    let s = p.start + rng.below(p.end - p.start);
+                    len = len.min(p.end - s);
+                    s
+                } else {
+                    p.start
+                }
+            }
+            (Some(p), "dup") => {
+                len = p.end - p.start;
+                p.start
+            }
+            (Some(p), "before") => rng.below(p.start + 1),
+            _ => rng.below(file_len + 1),
+        };
+        let start = start.min(file_len);
+        let end = (start + len).min(file_len);
+        if !allow_empty && end == start {
+            break;
+        }
+        out.push(start..end);
+        pos = end;
+        let _ = i;
+    }
+    if profile == Profile::Unsorted && out.len() > 1 && rng.chance(1, 2) {
+        rng.shuffle(&mut out);
+    }
+    out
+}
+
+#[derive(Clone, Debug, Default)]
+struct Shape {
+    n: usize,
+    has_empty: bool,
+    unsorted: bool,
+    overlapping: bool,
+    contained: bool,
+    dup: bool,
+    adjacent: bool,
+    near: bool,
+    far: bool,
+    needs_split: bool,
+    empty_at_eof: bool,
+    sig: u64,
+}
+
+fn analyze(req: &Req, block: u64, m: u64, file_len: u64) -> Shape {
+    let mut s = Shape {
+        n: req.len(),
+        ..Default::default()
+    };
+    let mut code: Vec<u8> = vec![];
+    let mut max_end = 0u64;
+    let mut run_start = 0u64; // start of the current coalesced run (sorted view)
+    for (i, r) in req.iter().enumerate() {
+        let len = r.end - r.start;
+        let size_class = if len == 0 {
+            s.has_empty = true;
+            if r.start == file_len {
+                s.empty_at_eof = true;
+            }
+            0
+        } else if len <= m {
+            1
+        } else {
+            s.needs_split = true;
+            2
+        };
+        code.push(size_class);
+        if i > 0 {
+            let p = &req[i - 1];
+            let rel = if r.start < p.start {
+                s.unsorted = true;
+                7
+            } else if r.start == p.start && r.end == p.end {
+                s.dup = true;
+                1
+            } else if r.start < max_end && r.end <= max_end {
+                s.contained = true;
+                2
+            } else if r.start < max_end {
+                s.overlapping = true;
+                3
+            } else if r.start == max_end {
+                s.adjacent = true;
+                4
+            } else if r.start <= max_end + block {
+                s.near = true;
+                5
+            } else {
+                s.far = true;
+                6
+            };
+            code.push(10 + rel);
+            if rel == 6 || rel == 7 {
+                run_start = r.start;
+            }
+        } else {
+            run_start = r.start;
+        }
+        max_end = max_end.max(r.end);
+        if max_end - run_start.min(max_end) > m {
+            s.needs_split = true;
+        }
+    }
+    code.push(if s.needs_split { 99 } else { 98 });
+    s.sig = fnv(&code);
+    s
+}
+
+fn class_of(req: &Req, block: u64, m: u64, file_len: u64) -> String {
+    let s = analyze(req, block, m, file_len);
+    let base = if s.has_empty {
+        "empty-range"
+    } else if s.unsorted {
+        "unsorted-ranges"
+    } else if s.overlapping || s.contained || s.dup {
+        "overlapping-ranges"
+    } else {
+        "sorted-disjoint-ranges"
+    };
+    if s.needs_split && base != "empty-range" && base != "unsorted-ranges" {
+        format!("{base}-after-split")
+    } else {
+        base.to_string()
+    }
+}
+
+// -------------------------------------------------------------------------------------------
+// boundary oracle
+// -------------------------------------------------------------------------------------------
+
+#[derive(Clone, Debug, PartialEq)]
+enum Symptom {
+    Ok,
+    Fewer(usize),
+    More(usize),
+    WrongBytes(usize),
+    Panic(String),
+    Error(String),
+    Hang,
+}
+
+impl Symptom {
+    fn name(&self) -> &'static str {
+        match self {
+            Symptom::Ok => "ok",
+            Symptom::Fewer(_) => "fewer-buffers",
+            Symptom::More(_) => "more-buffers",
+            Symptom::WrongBytes(_) => "wrong-bytes",
+            Symptom::Panic(_) => "panic",
+            Symptom::Error(_) => "error",
+            Symptom::Hang => "hang",
+        }
+    }
+}
+
+#[derive(Clone)]
+enum Via {
+    File(FileScheduler),
+    Enc(Arc<LanceEncodingsIo>, u64),
+}
+
+impl Via {
+    fn name(&self) -> &'static str {
+        match self {
+            Via::File(_) => "",
+            Via::Enc(..) => "-via-encodings-io",
+        }
+    }
+    fn submit(&self, req: Req, prio: u64) -> BoxFuture<'static, lance_core::Result<Vec<Bytes>>> {
+        match self {
+            Via::File(f) => f.submit_request(req, prio).boxed(),
+            Via::Enc(e, _) => e.submit_request(req, prio),
+        }
+    }
+}
+
+fn panic_msg(p: Box<dyn std::any::Any + Send>) -> String {
+    if let Some(s) = p.downcast_ref::<&str>() {
+        s.to_string()
+    } else if let Some(s) = p.downcast_ref::<String>() {
+        s.clone()
+    } else {
+        "?".into()
+    }
+}
+
+/// The data oracle: exactly one buffer per range, in order, equal to the slice.
+fn judge(data: &Bytes, req: &Req, got: &[Bytes]) -> Symptom {
+    if got.len() < req.len() {
+        return Symptom::Fewer(got.len());
+    }
+    if got.len() > req.len() {
+        return Symptom::More(got.len());
+    }
+    for (i, (r, b)) in req.iter().zip(got.iter()).enumerate() {
+        if b.as_ref() != &data[r.start as usize..r.end as usize] {
+            return Symptom::WrongBytes(i);
+        }
+    }
+    Symptom::Ok
+}
+
+/// Submit one list and await it (ungated store); classify the outcome.
+async fn submit_and_judge(via: &Via, data: &Bytes, req: &Req, prio: u64, corrupt: Option<u32>) -> Symptom {
+    let fut = match std::panic::catch_unwind(AssertUnwindSafe(|| via.submit(req.clone(), prio))) {
+        Ok(f) => f,
+        Err(p) => return Symptom::Panic(panic_msg(p)),
+    };
+    let res = tokio::time::timeout(Duration::from_secs(20), AssertUnwindSafe(fut).catch_unwind()).await;
+    match res {
+        Err(_) => Symptom::Hang,
+        Ok(Err(p)) => Symptom::Panic(panic_msg(p)),
+        Ok(Ok(Err(e))) => Symptom::Error(e.to_string().chars().take(160).collect()),
+        Ok(Ok(Ok(mut got))) => {
+            if let Some(c) = corrupt {
+                corrupt_observation(&mut got, c);
+            }
+            judge(data, req, &got)
+        }
+    }
+}
+
+/// selftest only: damage the observation before it reaches the oracle
+fn corrupt_observation(got: &mut Vec<Bytes>, how: u32) {
+    match how % 3 {
+        0 => {
+            if got.pop().is_none() {
+                got.push(Bytes::new());
+            }
+        }
+        1 => {
+            if got.len() >= 2 && got[0] != got[1] {
+                got.swap(0, 1);
+            } else {
+                got.push(Bytes::new());
+            }
+        }
+        _ => {
+            if let Some(i) = got.iter().position(|b| !b.is_empty()) {
+                let mut v = got[i].to_vec();
+                let k = v.len() / 2;
+                v[k] ^= 0x10;
+                got[i] = Bytes::from(v);
+            } else {
+                got.push(Bytes::new());
+            }
+        }
+    }
+}
+
+/// Remove ranges one at a time while the same symptom kind persists (1-minimal list).
+async fn minimise(via: &Via, data: &Bytes, req: &Req, prio: u64, sym: &Symptom) -> Req {
+    let mut cur = req.clone();
+    let mut progress = true;
+    let mut budget = 300;
+    while progress && cur.len() > 1 && budget > 0 {
+        progress = false;
+        let mut i = 0;
+        while i < cur.len() && cur.len() > 1 && budget > 0 {
+            let mut cand = cur.clone();
+            cand.remove(i);
+            budget -= 1;
+            let s = submit_and_judge(via, data, &cand, prio, None).await;
+            if s.name() == sym.name() {
+                cur = cand;
+                progress = true;
+            } else {
+                i += 1;
+            }
+        }
+    }
+    cur
+}
+
+fn req_json(r: &Req) -> Value {
+    json!(r.iter().map(|x| format!("{}..{}", x.start, x.end)).collect::<Vec<_>>())
+}
+
+fn count_shape(col: &Collector, s: &Shape) {
+    col.count("boundary.lists", 1);
+    col.count("boundary.ranges", s.n as u64);
+    let mut f = |k: &str, b: bool| {
+        if b {
+            col.count(&format!("shape.{k}"), 1)
+        }
+    };
+    f("empty_list", s.n == 0);
+    f("has_empty_range", s.has_empty);
+    f("empty_range_at_eof", s.empty_at_eof);
+    f("unsorted", s.unsorted);
+    f("overlapping", s.overlapping);
+    f("contained", s.contained);
+    f("duplicate", s.dup);
+    f("adjacent", s.adjacent);
+    f("near_coalesced", s.near);
+    f("far_apart", s.far);
+    f("needs_split", s.needs_split);
+    f("single_range", s.n == 1);
+}
+
+async fn boundary_case(env: &Env, col: &Collector, idx: u64, rng: &mut Rng) {
+    let su = make_setup(env, rng).await;
+    let base_prio = if rng.bool() { 0 } else { rng.below(1000) };
+    let (sched, fs) = match open(&su, base_prio).await {
+        Ok(x) => x,
+        Err(e) => {
+            col.harness_error(&format!("open failed: {e}"));
+            return;
+        }
+    };
+    let file_len = su.data.len() as u64;
+    let n_lists = rng.urange(3, 8);
+    for li in 0..n_lists {
+        let profile = *rng.pick(&[
+            Profile::SortedDisjoint,
+            Profile::SortedDisjoint,
+            Profile::Adjacent,
+            Profile::Overlapping,
+            Profile::Mixed,
+            Profile::Mixed,
+            Profile::Unsorted,
+            Profile::WithEmpties,
+            Profile::AllEmpty,
+        ]);
+        let req = gen_ranges(rng, file_len, su.block_size, env.max_iop, profile);
+        let via = if rng.chance(1, 3) {
+            let chunk = *rng.pick(&[16u64, 100, 1000, 5000, 8 << 20]);
+            Via::Enc(
+                Arc::new(LanceEncodingsIo::new(fs.clone()).with_read_chunk_size(chunk)),
+                chunk,
+            )
+        } else if rng.chance(1, 4) {
+            Via::File(fs.with_priority(rng.below(5)))
+        } else {
+            Via::File(fs.clone())
+        };
+        let prio = *rng.pick(&[0u64, 0, 1, 7, u64::MAX]);
+        let shape = analyze(&req, su.block_size, env.max_iop, file_len);
+        count_shape(col, &shape);
+        if matches!(via, Via::Enc(..)) {
+            col.count("boundary.via_encodings_io", 1);
+        }
+        let corrupt = if env.selftest { Some(rng.next_u32()) } else { None };
+        let sym = submit_and_judge(&via, &su.data, &req, prio, corrupt).await;
+        let nontrivial = shape.n >= 2 || shape.needs_split || shape.has_empty;
+        let sig = fnv(format!("b:{}:{}", shape.sig, via.name()).as_bytes());
+        col.case(if nontrivial { Some(sig) } else { None });
+        col.count("boundary.bytes_compared", req.iter().map(|r| r.end - r.start).sum());
+        if sym == Symptom::Ok {
+            if col.want_sample() && shape.n >= 3 && li == 0 {
+                col.sample(json!({"leg": "boundary", "case": idx, "setup": su.describe(env), "ranges": req_json(&req),
+                    "via": via.name(), "outcome": "one buffer per range, bytes equal"}));
+            }
+            continue;
+        }
+        if sym == Symptom::Hang {
+            col.inconclusive(&format!("boundary case {idx}: 20 s watchdog on an ungated store, ranges {:?}", req));
+            continue;
+        }
+        // a refuting observation: minimise and classify
+        let min = if env.selftest {
+            req.clone()
+        } else {
+            minimise(&via, &su.data, &req, prio, &sym).await
+        };
+        let min_sym = if env.selftest {
+            sym.clone()
+        } else {
+            submit_and_judge(&via, &su.data, &min, prio, None).await
+        };
+        let class = class_of(&min, su.block_size, env.max_iop, file_len);
+        let signature = format!("{}-{}{}", sym.name(), class, via.name());
+        col.violation(
+            &signature,
+            &format!(
+                "submit_request({:?}) -> {:?} (expected {} buffers equal to the file slices)",
+                min,
+                min_sym,
+                min.len()
+            ),
+            json!({"leg": "boundary", "seed": env.seed as i64, "worker": env.worker, "case": idx, "list_index": li,
+                "setup": su.describe(env), "via": via.name(),
+                "read_chunk_size": match &via { Via::Enc(_, c) => json!(c), _ => Value::Null },
+                "priority": prio.to_string(), "base_priority": base_prio,
+                "ranges": req_json(&req), "observed": format!("{sym:?}"),
+                "minimal_ranges": req_json(&min), "minimal_observed": format!("{min_sym:?}"),
+                "expected": "exactly one Bytes per range, in request order, equal to file[range]"}),
+        );
+    }
+    drop(fs);
+    drop(sched);
+    drain(10).await;
+}
+
+/// let spawned tasks (io loop, io tasks) finish
+async fn drain(max_rounds: usize) -> usize {
+    let h = tokio::runtime::Handle::current();
+    let mut alive = h.metrics().num_alive_tasks();
+    for _ in 0..max_rounds {
+        if alive == 0 {
+            break;
+        }
+        tokio::task::yield_now().await;
+        alive = h.metrics().num_alive_tasks();
+    }
+    alive
+}
+
+// -------------------------------------------------------------------------------------------
+// progress leg
+// -------------------------------------------------------------------------------------------
+
+/// well-formed list: sorted, non-empty ranges, non-overlapping (keeps the progress leg clear of the
+/// boundary defects so that a data mismatch here means something else)
+fn gen_clean_ranges(rng: &mut Rng, file_len: u64, block: u64, m: u64) -> Req {
+    let n = rng.urange(1, 5);
+    let mut out = vec![];
+    let mut pos = rng.below(file_len / 2 + 1);
+    for _ in 0..n {
+        let gap = match rng.below(3) {
+            0 => 0,
+            1 => rng.below(block.min(3000) + 1),
+            _ => block + 1 + rng.below(10_000),
+        };
+        let start = pos + gap;
+        if start >= file_len {
+            break;
+        }
+        let len = match rng.below(6) {
+            0 => 1,
+            1..=3 => rng.range(1, 64) as u64,
+            4 => rng.range(1, m.min(30_000) as i64) as u64,
+            _ => m + rng.range(1, m.min(10_000) as i64 + 1) as u64,
+        };
+        let end = (start + len).min(file_len);
+        out.push(start..end);
+        pos = end;
+    }
+    if out.is_empty() {
+        out.push(0..file_len.min(10).max(1));
+    }
+    out
+}
+
+#[derive(Clone, Copy, Debug, PartialEq, Eq)]
+enum Strat {
+    Uniform,
+    Fifo,
+    Lifo,
+    HighestOffsetFirst,
+    StarveOldest,
+}
+
+enum Slot {
+    NotSubmitted,
+    Pending {
+        fut: BoxFuture<'static, lance_core::Result<Vec<Bytes>>>,
+        stall: usize,
+        submitted_at: usize,
+    },
+    Resolved,
+    Dropped,
+}
+
+struct ReqPlan {
+    ranges: Req,
+    prio: u64,
+    via_enc: bool,
+    stall: usize,
+    drop_at: Option<usize>,
+    sched: usize,
+}
+
+fn intersects(parked: &Option<Range<u64>>, req: &Req) -> bool {
+    match parked {
+        None => true,
+        Some(p) => req.iter().any(|r| r.start < p.end && p.start < r.end),
+    }
+}
+
+/// yield until nothing moves any more (current-thread runtime: deterministic, no wall clock)
+async fn settle(gate: &GateStore, mon: &Arc<Mutex<Monitor>>) -> bool {
+    let h = tokio::runtime::Handle::current();
+    let fp = |g: &GateStore| {
+        (
+            g.n_parked(),
+            g.n_arrived(),
+            mon.lock().unwrap().events,
+            h.metrics().num_alive_tasks(),
+        )
+    };
+    let mut last = fp(gate);
+    let mut stable = 0;
+    for _ in 0..2000 {
+        tokio::task::yield_now().await;
+        let cur = fp(gate);
+        if cur == last {
+            stable += 1;
+            if stable >= 4 {
+                return true;
+            }
+        } else {
+            stable = 0;
+            last = cur;
+        }
+    }
+    false
+}
+
+async fn progress_case(env: &Env, col: &Collector, idx: u64, rng: &mut Rng) {
+    let mon = Monitor::new();
+    qmon::attach(Some(mon.clone()));
+    progress_case_inner(env, col, idx, rng, &mon).await;
+    qmon::attach(None);
+}
+
+async fn progress_case_inner(env: &Env, col: &Collector, idx: u64, rng: &mut Rng, mon: &Arc<Mutex<Monitor>>) {
+    let mut su = make_setup(env, rng).await;
+    // more pressure than in the boundary leg
+    su.io_buffer = *rng.pick(&[1u64, 1, 10, 100, 1000, 20_000, 256 << 20]);
+    let file_len = su.data.len() as u64;
+    let two_scheds = env.proc_limit > 0 && env.proc_limit < 16 && rng.bool();
+    let n_scheds = if two_scheds { 2 } else { 1 };
+    let mut scheds: Vec<Option<Arc<ScanScheduler>>> = vec![];
+    let mut files: Vec<Option<FileScheduler>> = vec![];
+    for _ in 0..n_scheds {
+        match open(&su, rng.below(3)).await {
+            Ok((s, f)) => {
+                scheds.push(Some(s));
+                files.push(Some(f));
+            }
+            Err(e) => {
+                col.harness_error(&format!("open failed: {e}"));
+                return;
+            }
+        }
+    }
+    su.gate.set_mode(Mode::Gated);
+
+    let n_req = rng.urange(1, 7);
+    let prio_mode = rng.below(4);
+    let want_drop_sched = rng.chance(1, 6);
+    let want_drop_fut = rng.chance(1, 6);
+    let want_perm_fail = rng.chance(1, 8);
+    let fail_p = if rng.chance(1, 4) { 5 } else { 0 }; // transient failure probability (of 20)
+    let strat = *rng.pick(&[
+        Strat::Uniform,
+        Strat::Uniform,
+        Strat::Fifo,
+        Strat::Lifo,
+        Strat::HighestOffsetFirst,
+        Strat::StarveOldest,
+    ]);
+    let mut plans: Vec<ReqPlan> = (0..n_req)
+        .map(|k| ReqPlan {
+            ranges: gen_clean_ranges(rng, file_len, su.block_size, env.max_iop),
+            prio: match prio_mode {
+                0 => 0,
+                1 => k as u64,
+                2 => (n_req - k) as u64,
+                _ => rng.below(4),
+            },
+            via_enc: rng.chance(1, 4),
+            stall: if rng.chance(1, 3) { rng.urange(1, 6) } else { 0 },
+            drop_at: None,
+            sched: rng.usize_below(n_scheds),
+        })
+        .collect();
+    if want_drop_fut {
+        let k = rng.usize_below(n_req);
+        plans[k].drop_at = Some(rng.urange(0, 4));
+    }
+    let mut perm_failed: Vec<Range<u64>> = vec![];
+    if want_perm_fail {
+        let k = rng.usize_below(n_req);
+        let r = plans[k].ranges[0].clone();
+        let at = r.start + rng.below((r.end - r.start).max(1));
+        perm_failed.push(at..at + 1);
+        su.gate.always_fail(at..at + 1);
+    }
+    let drop_sched_step = if want_drop_sched { Some(rng.urange(1, 8)) } else { None };
+
+    let mut slots: Vec<Slot> = (0..n_req).map(|_| Slot::NotSubmitted).collect();
+    let mut sched_dropped = false;
+    let mut futs_dropped = 0usize;
+    let mut actions: Vec<String> = vec![];
+    let mut max_parked = 0usize;
+    let mut stuck: Option<String> = None;
+    let mut step = 0usize;
+    let mut resolve_latency_max = 0usize;
+    let mut last_release_step = 0usize;
+    let mut unstable = false;
+    let starve_id: u64 = 0;
+    let corrupt_hold = env.selftest; // selftest: never release read 0 => must be reported as stuck
+
+    'outer: loop {
+        step += 1;
+        if step > 3000 {
+            col.inconclusive(&format!("progress case {idx}: step limit"));
+            break;
+        }
+        // 1. settle + consume until fixpoint
+        loop {
+            if !settle(&su.gate, mon).await {
+                unstable = true;
+            }
+            let mut any = false;
+            for k in 0..n_req {
+                let mut done: Option<std::thread::Result<lance_core::Result<Vec<Bytes>>>> = None;
+                if let Slot::Pending { fut, stall, .. } = &mut slots[k] {
+                    if *stall == 0 {
+                        let r = futures::poll!(AssertUnwindSafe(fut.as_mut()).catch_unwind());
+                        if let std::task::Poll::Ready(r) = r {
+                            done = Some(r);
+                        }
+                    }
+                }
+                if let Some(r) = done {
+                    any = true;
+                    let submitted_at = match &slots[k] {
+                        Slot::Pending { submitted_at, .. } => *submitted_at,
+                        _ => 0,
+                    };
+                    slots[k] = Slot::Resolved;
+                    resolve_latency_max = resolve_latency_max.max(step - submitted_at);
+                    col.count("progress.requests_resolved", 1);
+                    let p = &plans[k];
+                    let witness = |obs: String| {
+                        json!({"leg": "progress", "seed": env.seed as i64, "worker": env.worker, "case": idx,
+                        "setup": su.describe(env), "request": k, "ranges": req_json(&p.ranges), "priority": p.prio,
+                        "via_encodings_io": p.via_enc, "observed": obs, "actions": actions,
+                        "scheduler_dropped": sched_dropped, "permanently_failing_reads": format!("{perm_failed:?}")})
+                    };
+                    match r {
+                        Err(pn) => col.violation(
+                            "panic-in-request-future-under-gated-completion",
+                            "request future panicked",
+                            witness(panic_msg(pn)),
+                        ),
+                        Ok(Ok(bufs)) => {
+                            col.count("progress.bytes_compared", bufs.iter().map(|b| b.len() as u64).sum());
+                            let s = judge(&su.data, &p.ranges, &bufs);
+                            if s != Symptom::Ok {
+                                col.violation(
+                                    &format!("{}-under-gated-completion-order", s.name()),
+                                    "well-formed request returned wrong data under a controlled completion order",
+                                    witness(format!("{s:?}")),
+                                );
+                            }
+                            if perm_failed.iter().any(|f| intersects(&Some(f.clone()), &p.ranges)) {
+                                col.violation(
+                                    "ok-despite-permanently-failing-read",
+                                    "request covering a permanently failing byte returned Ok",
+                                    witness("Ok".into()),
+                                );
+                            }
+                        }
+                        Ok(Err(e)) => {
+                            col.count("progress.requests_resolved_err", 1);
+                            let excusable = sched_dropped || !perm_failed.is_empty();
+                            if !excusable {
+                                col.violation(
+                                    "unexpected-error-under-gated-completion-order",
+                                    "request failed although no read failed permanently and the scheduler is alive",
+                                    witness(e.to_string()),
+                                );
+                            }
+                        }
+                    }
+                }
+            }
+            if !any {
+                break;
+            }
+        }
+        let parked = su.gate.parked();
+        max_parked = max_parked.max(parked.len());
+        // 2. done?
+        let outstanding: Vec<usize> = (0..n_req)
+            .filter(|k| matches!(slots[*k], Slot::Pending { .. }))
+            .collect();
+        let unsubmitted: Vec<usize> = (0..n_req)
+            .filter(|k| matches!(slots[*k], Slot::NotSubmitted))
+            .collect();
+        if outstanding.is_empty() && (unsubmitted.is_empty() || sched_dropped) {
+            break;
+        }
+        // 3. planned drops
+        if let Some(ds) = drop_sched_step {
+            if !sched_dropped && step >= ds {
+                for s in scheds.iter_mut() {
+                    *s = None;
+                }
+                for f in files.iter_mut() {
+                    *f = None;
+                }
+                sched_dropped = true;
+                actions.push("drop-scheduler".into());
+                col.count("progress.scheduler_drops", 1);
+                col.count(&format!("progress.scheduler_drop_with_{}_outstanding", outstanding.len().min(3)), 1);
+                continue;
+            }
+        }
+        for k in 0..n_req {
+            if let (Slot::Pending { submitted_at, .. }, Some(d)) = (&slots[k], plans[k].drop_at) {
+                if step >= submitted_at + d {
+                    slots[k] = Slot::Dropped;
+                    futs_dropped += 1;
+                    actions.push(format!("drop-future-{k}"));
+                    col.count("progress.future_drops", 1);
+                    continue 'outer;
+                }
+            }
+        }
+        // 4. choose an action
+        let stalled: Vec<usize> = outstanding
+            .iter()
+            .copied()
+            .filter(|k| matches!(slots[*k], Slot::Pending { stall, .. } if stall > 0))
+            .collect();
+        let can_submit = !unsubmitted.is_empty() && !sched_dropped;
+        let releasable: Vec<_> = parked
+            .iter()
+            .filter(|p| !(corrupt_hold && p.id == 0))
+            .cloned()
+            .collect();
+        let mut choices: Vec<u8> = vec![];
+        if can_submit {
+            choices.extend([0, 0]);
+        }
+        if !releasable.is_empty() {
+            choices.extend([1, 1, 1]);
+        }
+        if !stalled.is_empty() {
+            choices.push(2);
+        }
+        if choices.is_empty() {
+            // nothing parked (or selftest hold), nothing to submit, nobody stalled, all outstanding
+            // futures were just polled after the runtime drained: bounded progress is violated.
+            stuck = Some(format!(
+                "outstanding requests {:?} are pending with no parked read, nothing to submit and no stalled consumer",
+                outstanding
+            ));
+            break;
+        }
+        match *rng.pick(&choices) {
+            0 => {
+                let k = unsubmitted[0];
+                let p = &plans[k];
+                let f = files[p.sched].as_ref().unwrap();
+                let fut = if p.via_enc {
+                    LanceEncodingsIo::new(f.clone())
+                        .with_read_chunk_size(*rng.pick(&[100u64, 5000, 8 << 20]))
+                        .submit_request(p.ranges.clone(), p.prio)
+                } else {
+                    f.submit_request(p.ranges.clone(), p.prio).boxed()
+                };
+                slots[k] = Slot::Pending {
+                    fut,
+                    stall: p.stall,
+                    submitted_at: step,
+                };
+                actions.push(format!("submit-{k}(p{})", p.prio));
+                col.count("progress.requests_submitted", 1);
+            }
+            1 => {
+                let pick = match strat {
+                    Strat::Uniform => rng.usize_below(releasable.len()),
+                    Strat::Fifo => 0,
+                    Strat::Lifo => releasable.len() - 1,
+                    Strat::HighestOffsetFirst => releasable
+                        .iter()
+                        .enumerate()
+                        .max_by_key(|(_, p)| p.range.as_ref().map(|r| r.start).unwrap_or(0))
+                        .map(|(i, _)| i)
+                        .unwrap_or(0),
+                    Strat::StarveOldest => {
+                        // keep the oldest read parked as long as anything else can be released
+                        let others: Vec<usize> = (0..releasable.len())
+                            .filter(|i| releasable[*i].id != starve_id)
+                            .collect();
+                        if others.is_empty() {
+                            0
+                        } else {
+                            others[rng.usize_below(others.len())]
+                        }
+                    }
+                };
+                let p = &releasable[pick];
+                let fail = !p.head && rng.below(20) < fail_p;
+                su.gate
+                    .release(p.id, if fail { Verdict::Fail } else { Verdict::Proceed });
+                last_release_step = step;
+                actions.push(format!(
+                    "release-r{}{}",
+                    p.id,
+                    if fail { "-fail" } else { "" }
+                ));
+                col.count("progress.reads_released", 1);
+                if fail {
+                    col.count("progress.transient_read_failures", 1);
+                }
+            }
+            _ => {
+                actions.push("tick".into());
+            }
+        }
+        for k in 0..n_req {
+            if let Slot::Pending { stall, .. } = &mut slots[k] {
+                if *stall > 0 {
+                    *stall -= 1;
+                }
+            }
+        }
+    }
+
+    // ---- verdicts of the case
+    let rel = su.gate.released_order();
+    let fifo = rel.windows(2).all(|w| w[0] < w[1]);
+    let ms = mon.lock().unwrap().all_states();
+    let backpressure: u64 = ms.iter().map(|q| q.backpressure_events).sum();
+    let bypass: u64 = ms.iter().map(|q| q.bypass_admits).sum();
+    let nontrivial = (max_parked >= 2 && !fifo) || backpressure > 0;
+    let kinds: String = actions
+        .iter()
+        .map(|a| a.split('-').next().unwrap_or("").chars().next().unwrap_or('?'))
+        .collect();
+    let sig = fnv(format!("p:{rel:?}:{kinds}:{}:{}", su.io_buffer, su.io_par).as_bytes());
+    col.case(if nontrivial { Some(sig) } else { None });
+    col.count("progress.cases", 1);
+    col.count("progress.steps", step as u64);
+    col.max("progress.parked_at_once", max_parked as u64);
+    col.max("progress.steps_submit_to_resolve", resolve_latency_max as u64);
+    col.count(if fifo { "progress.release_order_fifo" } else { "progress.release_order_permuted" }, 1);
+    col.count(&format!("progress.strategy.{strat:?}"), 1);
+    col.count("progress.hook_events", mon.lock().unwrap().events);
+    col.count("progress.backpressure_events", backpressure);
+    col.count("progress.priority_bypass_admits", bypass);
+    if n_scheds == 2 {
+        col.count("progress.two_schedulers_sharing_process_quota", 1);
+    }
+    if unstable {
+        col.inconclusive(&format!("progress case {idx}: runtime did not settle within 2000 yields"));
+    }
+    let class = format!(
+        "{}{}{}",
+        if futs_dropped > 0 { "-after-dropped-future" } else { "" },
+        if sched_dropped { "-after-scheduler-drop" } else { "" },
+        if !perm_failed.is_empty() { "-with-failing-read" } else { "" }
+    );
+    let base_witness = json!({"leg": "progress", "seed": env.seed as i64, "worker": env.worker, "case": idx,
+        "setup": su.describe(env), "schedulers": n_scheds, "strategy": format!("{strat:?}"),
+        "requests": plans.iter().map(|p| json!({"ranges": req_json(&p.ranges), "priority": p.prio, "via_encodings_io": p.via_enc,
+            "consumer_stall_steps": p.stall, "drop_future_after_steps": p.drop_at, "scheduler": p.sched})).collect::<Vec<_>>(),
+        "actions": actions, "release_order": rel, "last_release_step": last_release_step, "steps": step,
+        "queue_states": ms.iter().map(|q| format!("{:?}", q.last)).collect::<Vec<_>>()});
+    if let Some(why) = &stuck {
+        if env.selftest {
+            col.count("selftest.stuck_detected", 1);
+        } else {
+            col.violation(
+                &format!("request-never-completes{class}"),
+                why,
+                base_witness.clone(),
+            );
+        }
+    } else if env.selftest {
+        col.count("selftest.stuck_missed", 1);
+    }
+    // H1 monitor: online errors + conservation at quiescence
+    {
+        let m = mon.lock().unwrap();
+        for (s, d) in &m.errors {
+            let mut w = base_witness.clone();
+            w["hook_detail"] = json!(d);
+            col.violation(&format!("queue-monitor-{s}"), "I/O queue state invariant broken (hook H1)", w);
+        }
+        if stuck.is_none() && futs_dropped == 0 && !sched_dropped && !env.selftest {
+            for (s, d) in m.check_quiescent() {
+                let mut w = base_witness.clone();
+                w["hook_detail"] = json!(d);
+                col.violation(&format!("queue-monitor-{s}"), "I/O budget not restored after all requests were consumed (hook H1)", w);
+            }
+            col.count("progress.conservation_checked", 1);
+        }
+    }
+    if col.want_sample() && nontrivial && step > 6 {
+        col.sample(json!({"leg": "progress", "case": idx, "setup": su.describe(env), "strategy": format!("{strat:?}"),
+            "requests": plans.iter().map(|p| json!({"ranges": req_json(&p.ranges), "priority": p.prio})).collect::<Vec<_>>(),
+            "actions": actions, "release_order": rel, "max_parked": max_parked, "backpressure_events": backpressure}));
+    }
+    // ---- tear down: release everything so no io task (and process-wide iops permit) leaks
+    slots.clear();
+    scheds.clear();
+    files.clear();
+    su.gate.set_mode(Mode::Pass);
+    for _ in 0..50 {
+        su.gate.release_all();
+        if drain(20).await == 0 {
+            break;
+        }
+    }
+    let alive = drain(50).await;
+    if alive > 0 {
+        col.count("progress.tasks_alive_after_teardown", alive as u64);
+    }
+}
+
+// -------------------------------------------------------------------------------------------
+// stress leg (multi-thread runtime)
+// -------------------------------------------------------------------------------------------
+
+fn stress_case(env: &Env, col: &Collector, idx: u64, rng: &mut Rng) {
+    let mon = Monitor::new();
+    let m2 = mon.clone();
+    let rt = tokio::runtime::Builder::new_multi_thread()
+        .worker_threads(rng.urange(2, 4))
+        .enable_all()
+        .on_thread_start(move || qmon::attach(Some(m2.clone())))
+        .build()
+        .expect("runtime");
+    qmon::attach(Some(mon.clone()));
+    let seed = rng.next_u64();
+    let env2 = env.clone();
+    let out = rt.block_on(async move {
+        let mut rng = Rng::new(seed);
+        tokio::time::timeout(Duration::from_secs(40), stress_inner(&env2, idx, &mut rng)).await
+    });
+    qmon::attach(None);
+    match out {
+        Err(_) => {
+            col.inconclusive(&format!("stress case {idx}: 40 s wall-clock watchdog fired (possible hang; not decidable here)"));
+            col.count("stress.watchdog", 1);
+            rt.shutdown_background();
+            return;
+        }
+        Ok(mut r) => {
+            let ms = mon.lock().unwrap().all_states();
+            let backpressure: u64 = ms.iter().map(|q| q.backpressure_events).sum();
+            let nontrivial = backpressure > 0 || r.submitters > 1;
+            let sig = fnv(format!("s:{}:{}:{}:{}:{}", r.submitters, r.requests, r.io_buffer, r.io_par, backpressure.min(50)).as_bytes());
+            col.case(if nontrivial { Some(sig) } else { None });
+            col.count("stress.cases", 1);
+            col.count("stress.requests", r.requests as u64);
+            col.count("stress.bytes_compared", r.bytes);
+            col.count("stress.backpressure_events", backpressure);
+            col.count("stress.hook_events", mon.lock().unwrap().events);
+            col.count("stress.priority_bypass_admits", ms.iter().map(|q| q.bypass_admits).sum());
+            for (s, w) in r.violations {
+                col.violation(&s, "stress leg: wrong data or error on a well-formed request", w);
+            }
+            let m = mon.lock().unwrap();
+            for (s, d) in &m.errors {
+                col.violation(
+                    &format!("queue-monitor-{s}"),
+                    "I/O queue state invariant broken (hook H1, multi-thread stress)",
+                    json!({"leg": "stress", "seed": env.seed as i64, "worker": env.worker, "case": idx, "hook_detail": d}),
+                );
+            }
+            if r.all_consumed {
+                for (s, d) in m.check_quiescent() {
+                    col.violation(
+                        &format!("queue-monitor-{s}"),
+                        "I/O budget not restored after all requests were consumed (hook H1, stress)",
+                        json!({"leg": "stress", "seed": env.seed as i64, "worker": env.worker, "case": idx, "hook_detail": d}),
+                    );
+                }
+            }
+            drop(m);
+            r.keep = None;
+            if col.want_sample() && backpressure > 0 {
+                col.sample(json!({"leg": "stress", "case": idx, "submitters": r.submitters, "requests": r.requests,
+                    "io_buffer_size": r.io_buffer, "io_parallelism": r.io_par, "backpressure_events": backpressure}));
+            }
+        }
+    }
+    drop(rt);
+}
+
+struct StressOut {
+    submitters: usize,
+    requests: usize,
+    bytes: u64,
+    io_buffer: u64,
+    io_par: usize,
+    violations: Vec<(String, Value)>,
+    all_consumed: bool,
+    /// the queue must stay open until the monitor was read (closing changes the budget fields)
+    keep: Option<(Arc<ScanScheduler>, FileScheduler)>,
+}
+
+async fn stress_inner(env: &Env, idx: u64, rng: &mut Rng) -> StressOut {
+    let mut su = make_setup(env, rng).await;
+    su.io_buffer = *rng.pick(&[1u64, 64, 1000, 20_000, 256 << 20]);
+    let (sched, fs) = open(&su, 0).await.expect("open");
+    su.gate.set_jitter_seed(rng.next_u64());
+    su.gate.set_mode(Mode::Jitter);
+    let file_len = su.data.len() as u64;
+    let submitters = rng.urange(1, 6);
+    let mut handles = vec![];
+    let viol: Arc<Mutex<Vec<(String, Value)>>> = Arc::new(Mutex::new(vec![]));
+    let mut total_reqs = 0;
+    for s in 0..submitters {
+        let n = rng.urange(3, 30);
+        total_reqs += n;
+        let sequential = rng.bool();
+        let mut reqs: Vec<(Req, u64, u64)> = (0..n)
+            .map(|k| {
+                (
+                    gen_clean_ranges(rng, file_len, su.block_size, env.max_iop),
+                    if sequential { k as u64 / 2 } else { rng.below(6) },
+                    rng.below(600),
+                )
+            })
+            .collect();
+        if sequential {
+            reqs.sort_by_key(|r| r.1);
+        }
+        let fs = fs.with_priority(rng.below(2));
+        let data = su.data.clone();
+        let viol = viol.clone();
+        let setup = su.describe(env);
+        let seed = env.seed;
+        handles.push(tokio::spawn(async move {
+            let mut bytes = 0u64;
+            let check = |req: &Req, res: lance_core::Result<Vec<Bytes>>| -> u64 {
+                match res {
+                    Ok(bufs) => {
+                        let sy = judge(&data, req, &bufs);
+                        if sy != Symptom::Ok {
+                            viol.lock().unwrap().push((
+                                format!("{}-under-multithread-stress", sy.name()),
+                                json!({"leg": "stress", "seed": seed as i64, "case": idx, "submitter": s, "setup": setup,
+                                    "ranges": req_json(req), "observed": format!("{sy:?}")}),
+                            ));
+                        }
+                        bufs.iter().map(|b| b.len() as u64).sum()
+                    }
+                    Err(e) => {
+                        viol.lock().unwrap().push((
+                            "unexpected-error-under-multithread-stress".into(),
+                            json!({"leg": "stress", "seed": seed as i64, "case": idx, "submitter": s, "setup": setup,
+                                "ranges": req_json(req), "observed": e.to_string()}),
+                        ));
+                        0
+                    }
+                }
+            };
+            if sequential {
+                // submit everything, then consume in ascending priority order with delays
+                let futs: Vec<_> = reqs
+                    .iter()
+                    .map(|(r, p, _)| fs.submit_request(r.clone(), *p).boxed())
+                    .collect();
+                for (f, (r, _, delay)) in futs.into_iter().zip(reqs.iter()) {
+                    if *delay < 200 {
+                        tokio::time::sleep(Duration::from_micros(*delay)).await;
+                    } else if *delay < 400 {
+                        tokio::task::yield_now().await;
+                    }
+                    bytes += check(r, f.await);
+                }
+            } else {
+                // poll everything, consume whatever completes, with delays in between
+                let mut fu = FuturesUnordered::new();
+                for (k, (r, p, _)) in reqs.iter().enumerate() {
+                    let f = fs.submit_request(r.clone(), *p);
+                    fu.push(async move { (k, f.await) });
+                    if k % 3 == 0 {
+                        tokio::task::yield_now().await;
+                    }
+                }
+                while let Some((k, res)) = fu.next().await {
+                    bytes += check(&reqs[k].0, res);
+                    let d = reqs[k].2;
+                    if d < 150 {
+                        tokio::time::sleep(Duration::from_micros(d)).await;
+                    }
+                }
+            }
+            bytes
+        }));
+    }
+    let mut bytes = 0;
+    let mut all_ok = true;
+    for h in handles {
+        match h.await {
+            Ok(b) => bytes += b,
+            Err(e) => {
+                all_ok = false;
+                viol.lock().unwrap().push((
+                    "panic-under-multithread-stress".into(),
+                    json!({"leg": "stress", "seed": env.seed as i64, "case": idx, "observed": e.to_string()}),
+                ));
+            }
+        }
+    }
+    // conservation is judged before the scheduler is closed
+    let out = StressOut {
+        submitters,
+        requests: total_reqs,
+        bytes,
+        io_buffer: su.io_buffer,
+        io_par: su.io_par,
+        violations: std::mem::take(&mut *viol.lock().unwrap()),
+        all_consumed: all_ok,
+        keep: Some((sched, fs)),
+    };
+    // let the io tasks finish before the queue state is read by the caller
+    let h = tokio::runtime::Handle::current();
+    for _ in 0..200 {
+        if h.metrics().num_alive_tasks() <= 1 {
+            break;
+        }
+        tokio::time::sleep(Duration::from_millis(1)).await;
+    }
+    out
+}
+
+// -------------------------------------------------------------------------------------------
+// replay + selftest
+// -------------------------------------------------------------------------------------------
+
+fn replay(args: &Args, report: &Report, path: &str) -> i32 {
+    // A witness names (seed, worker, case); re-run exactly that case in a worker process with the
+    // worker's environment.
+    let Ok(txt) = std::fs::read_to_string(path) else {
+        report.harness_error("cannot read replay file");
+        return report.finish();
+    };
+    let Ok(v) = serde_json::from_str::<Value>(&txt) else {
+        report.harness_error("cannot parse replay file");
+        return report.finish();
+    };
+    let w = &v["witness"];
+    let worker = w["worker"].as_u64().unwrap_or(0) as usize;
+    let case = w["case"].as_u64().unwrap_or(0);
+    let cfgs = worker_cfgs(Tier::Thorough);
+    let cfg = cfgs[worker.min(cfgs.len() - 1)];
+    let out = format!("/tmp/e_io-c30-replay-{}.json", std::process::id());
+    let st = std::process::Command::new(std::env::current_exe().unwrap())
+        .arg("C30")
+        .arg("--tier")
+        .arg(args.tier.name())
+        .arg("--seed")
+        .arg((v["seed"].as_i64().unwrap_or(args.seed as i64)).to_string())
+        .arg("--worker")
+        .arg(worker.to_string())
+        .arg("--only-case")
+        .arg(case.to_string())
+        .arg("--out")
+        .arg(&out)
+        .env("LANCE_MAX_IOP_SIZE", cfg.max_iop.to_string())
+        .env("LANCE_PROCESS_IO_THREADS_LIMIT", cfg.proc_limit.to_string())
+        .status();
+    if let (Ok(_), Ok(txt)) = (st, std::fs::read_to_string(&out)) {
+        if let Ok(v) = serde_json::from_str::<Value>(&txt) {
+            merge_json(report, &v);
+        }
+    }
+    let _ = std::fs::remove_file(&out);
+    report.finish()
+}
+
+/// `--selftest 1`: corrupt the observation (drop / swap / flip) before the boundary oracle and hold
+/// one read forever in the progress leg; the oracles must flag every such case. Writes no evidence.
+fn selftest(args: &Args) -> i32 {
+    std::panic::set_hook(Box::new(|_| {}));
+    let col = Collector::new(20.0);
+    let env = Env {
+        seed: args.seed,
+        max_iop: std::env::var("LANCE_MAX_IOP_SIZE")
+            .ok()
+            .and_then(|s| s.parse().ok())
+            .unwrap_or(16 * 1024 * 1024),
+        proc_limit: 128,
+        worker: 0,
+        selftest: true,
+    };
+    let mut boundary_lists = 0u64;
+    for i in 0..300u64 {
+        let mut rng = Rng::for_case(env.seed, i);
+        let rt = rt_current();
+        if i % 2 == 0 {
+            rt.block_on(boundary_case(&env, &col, i, &mut rng));
+        } else {
+            rt.block_on(progress_case(&env, &col, i, &mut rng));
+        }
+    }
+    let v = col.to_json();
+    let lists = v["counters"]["boundary.lists"].as_u64().unwrap_or(0);
+    let flagged: u64 = v["violations"]
+        .as_array()
+        .map(|a| {
+            a.iter()
+                .filter(|x| x["witness"]["leg"] == "boundary")
+                .map(|x| x["count"].as_u64().unwrap_or(0))
+                .sum()
+        })
+        .unwrap_or(0);
+    boundary_lists += lists;
+    let stuck_ok = v["counters"]["selftest.stuck_detected"].as_u64().unwrap_or(0);
+    let stuck_missed = v["counters"]["selftest.stuck_missed"].as_u64().unwrap_or(0);
+    println!(
+        "SELFTEST C30 boundary: corrupted lists={boundary_lists} flagged={flagged}; progress: held-read cases flagged={stuck_ok} missed={stuck_missed}"
+    );
+    // a progress case whose read 0 is a `head`-free, never parked schedule cannot get stuck; allow a few
+    if flagged == boundary_lists && stuck_ok > 0 && stuck_missed * 10 <= stuck_ok {
+        println!("SELFTEST C30 ok");
+        0
+    } else {
+        println!("SELFTEST C30 FAILED");
+        2
+    }
+}
+
+#[allow(dead_code)]
+fn _unused(_: BTreeSet<u8>) {}
